@@ -189,6 +189,9 @@ func (c *serverConn) connect(header *parser.PacketHeader, decode parser.Decode) 
 	// registration above, in which case onClose did not see it. Close it here.
 	if c.closed.Load() {
 		reason, _ := c.closeReason.Load().(Reason)
+		if c.server.closing.Load() {
+			reason = ReasonServerShuttingDown
+		}
 		socket.onClose(reason)
 	}
 }
@@ -265,6 +268,11 @@ func (c *serverConn) onClose(reason Reason, err error) {
 	// We don't want it to close more than once,
 	// so we use sync.Once to avoid running onClose more than once.
 	c.closeOnce.Do(func() {
+		// Server.Close tells the sockets it finds why they are closed, then closes the
+		// Engine.IO server. Sockets admitted in between are only reached from here.
+		if c.server.closing.Load() {
+			reason = ReasonServerShuttingDown
+		}
 		c.closeReason.Store(reason)
 		c.closed.Store(true)
 		sockets := c.sockets.getAndRemoveAll()
